@@ -1052,12 +1052,16 @@ def clause_default_wrappers(ctx):
     gm = rm.func("get_default_modeling_wrapper")
     ctx.analysed(gw)
     ctx.analysed(gm)
-    inner_m = [f for q, f in rm.funcs.items()
-               if q.startswith("get_default_modeling_wrapper.")]
-    inner_r = [f for q, f in rm.funcs.items()
-               if q.startswith("get_default_residuals_wrapper.")]
-    if len(inner_m) != 1 or len(inner_r) != 1:
-        raise Undecided("default wrappers are not single nested functions")
+    def returned_inner(outer):
+        rets = [r for r in outer.body if isinstance(r, ast.Return)]
+        if len(rets) != 1 or not isinstance(rets[0].value, ast.Name):
+            raise Undecided(f"{outer.name} does not return a nested function")
+        q = f"{outer.name}.{rets[0].value.id}"
+        if q not in rm.funcs:
+            raise Undecided(f"{outer.name} does not return a nested function")
+        return rm.funcs[q]
+    inner_m = [returned_inner(gm)]
+    inner_r = [returned_inner(gw)]
     im, ir = inner_m[0], inner_r[0]
     calls = [c for c in calls_in(im)]
     ok = len(calls) == 1 and call_name(calls[0]) == \
@@ -1087,6 +1091,17 @@ def clause_default_wrappers(ctx):
         mv = got.get("model")
         R = Resolver(gw)
         mt = R.text(ast.Name(id=mv, ctx=ast.Load())) if mv else None
+        if mv and f"{gw.name}.{mv}" in rm.funcs:
+            # a locally defined model wrapper: it must itself go through the
+            # direction-agnostic call
+            loc = rm.funcs[f"{gw.name}.{mv}"]
+            lc = [c for c in calls_in(loc)]
+            if len(lc) == 1 and call_name(lc[0]) == \
+                    "model_direction_agnostic":
+                mt = "get_default_modeling_wrapper(model_function)"
+            else:
+                mt = f"local {mv}: " + ", ".join(
+                    call_name(c) or "?" for c in lc)
         ctx.check(mt == "get_default_modeling_wrapper(model_function)",
                   calls[0], f"residual uses model = {mt}",
                   "the default residuals are not computed with the "
